@@ -67,7 +67,7 @@ type Ref struct {
 
 // ScriptOp is one template instance of a generated well-behaved script.
 type ScriptOp struct {
-	Op    string   `json:"op"`             // setWeight | setStable | append | setAnno | setLabel | countMatches | identity
+	Op    string   `json:"op"`             // setWeight | setStable | append | setAnno | setAnnoOnMatch | setLabel | countMatches | identity
 	Path  []string `json:"path,omitempty"` // field path below spec (setWeight/setStable/append/countMatches)
 	Key   string   `json:"key,omitempty"`  // annotation / label key
 	Value string   `json:"value,omitempty"`
